@@ -196,6 +196,7 @@ def run(P, R, tier):
     holds.hard_hold_sites(P, R, 'C03.GRD.1')
     timer(P, R)
     gate_relations(P, R)
+    rules.bitset_primitives(P, R, 'C03.TAB.2')
     # a reply keyword with a CR glued to it is not recognised and the client waits forever
     from . import c08, c10
     c08.line_splitting(P, R, 'C03.TAB.1')
